@@ -588,16 +588,18 @@ def opCliTrace : Rd String := do
   let labels ← listOf readDLabel
   let evs ← listOf readCEv
   let tags ← listOf readTag
+  let exitZero ← bool
   let cfg : DCfg := { jobs, keep, failFast, files }
   if tags.any (·.isNone) then pure "reject no-status-line"
   else if !dwfB cfg mgmt then pure "reject configuration-not-well-formed"
   else
-    match traceCheck cfg labels evs (tags.filterMap id) with
+    match traceCheck cfg labels evs (tags.filterMap id) exitZero with
     | .ok => pure "accept"
     | .stuck k => pure s!"reject label-not-enabled {k}"
     | .notFinished => pure "reject run-not-finished"
     | .logDiffers k => pure s!"reject log-differs-at {k}"
     | .resultDiffers i => pure s!"reject result-differs-for-file {i}"
+    | .exitDiffers => pure "reject exit-status-differs"
 
 /-- replay an event log of the library's `run_parallel` through the monitor (no report, keep off) -/
 def opLibMon : Rd String := do
